@@ -9,7 +9,8 @@ import traceback
 
 def main():
     path, call = sys.argv[1], sys.argv[2]
-    sys.path.insert(0, "/verif")
+    import os
+    sys.path.insert(0, os.path.dirname(os.path.dirname(os.path.abspath(__file__))))
     out = {}
     try:
         spec = importlib.util.spec_from_file_location("vf_harness_replay", path)
